@@ -327,13 +327,52 @@ class DataFrameSchemaBackend(PolarsSchemaBackend):
             if k in column_info.absent_column_names
         }
 
+        # Ascertain order in which missing columns should be inserted into
+        # dataframe. Be careful not to modify order of existing dataframe
+        # columns (including columns that are not in the schema) to avoid
+        # ripple effects in downstream validation (e.g., ordered schema).
+        existing_columns = get_lazyframe_column_names(check_obj)
+        schema_cols_dict: dict = {}
+        for col_name, col_schema in schema.columns.items():
+            if col_name in existing_columns or col_schema.required:
+                schema_cols_dict[col_name] = None
+
+        ordered_cols: List[Any] = []
+        for col_name in existing_columns:
+            pop_cols = []
+            for next_col_name in iter(schema_cols_dict):
+                if (
+                    next_col_name in column_info.absent_column_names
+                    and next_col_name not in ordered_cols
+                ):
+                    # Next schema column is missing from dataframe,
+                    # so mark for insertion here
+                    ordered_cols.append(next_col_name)
+                    pop_cols.append(next_col_name)
+                else:
+                    # Pop marked columns from schema list
+                    for pop_col in pop_cols:
+                        schema_cols_dict.pop(pop_col)
+                    break
+
+            # Add current column
+            ordered_cols.append(col_name)
+
+            # Pop current column if it exists in schema
+            schema_cols_dict.pop(col_name, None)
+
+        # Add any remaining absent columns
+        for col_name in column_info.absent_column_names:
+            if col_name not in ordered_cols:
+                ordered_cols.append(col_name)
+
         # Append missing columns
         check_obj = check_obj.with_columns(
             **{k: v.default for k, v in missing_cols_schema.items()}
         ).cast({k: v.dtype.type for k, v in missing_cols_schema.items()})
 
         # Set column order
-        check_obj = check_obj.select([*schema.columns])
+        check_obj = check_obj.select(ordered_cols)
         return check_obj
 
     def strict_filter_columns(
